@@ -50,6 +50,24 @@ def castTop : Val → Val
   | .map top => .map (top.map fun e => if isResourceSection e.1 then (e.1, castSection e.2) else e)
   | v => v
 
+/-- does the cast of this leaf succeed (`toBoolean` returns no error)? -/
+def leafCastable : Val → Bool
+  | .str s => (Interp.parseBool s).isSome
+  | _ => true
+
+def resourceCastable : Val → Bool
+  | .map kvs => kvs.all fun e => e.1 != "external" || leafCastable e.2
+  | _ => true
+
+def sectionCastable : Val → Bool
+  | .map rs => rs.all fun e => resourceCastable e.2
+  | _ => true
+
+/-- `interp.Interpolate` does not fail on one of the three `external` leaves -/
+def castableTop : Val → Bool
+  | .map top => top.all fun e => !isResourceSection e.1 || sectionCastable e.2
+  | _ => true
+
 /-- the tree the structural stage reads: cast unless interpolation was skipped -/
 def seenByValidate (skipInterpolation : Bool) (t : Val) : Val :=
   if skipInterpolation then t else castTop t
